@@ -343,6 +343,10 @@ example : (run [] none w_plan1 { orig := some w_t0, tmp := none } .autocommit).2
 /-- `tmp_taken_untouched` on a concrete left-over: the copy under the temporary name survives the retry -/
 example : (final [] none false w_plan1 { orig := none, tmp := some w_t0 } .autocommit) = { orig := none, tmp := some w_t0 } := by decide
 
+/-- the class of the raised exception is a field of the plan that nothing reads: the run is the same for every kind -/
+example : ∀ k : FailKind, run [] (some 1) { w_plan1 with failKind := k } { orig := some w_t0, tmp := none } =
+    run [] (some 1) w_plan1 { orig := some w_t0, tmp := none } := fun _ => rfl
+
 /-- `transactional_ddl` is a field of the plan that nothing reads: the run is the same for both values -/
 example : run [] none { w_plan1 with transactionalDdl := true } { orig := some w_t0, tmp := none } =
     run [] none w_plan1 { orig := some w_t0, tmp := none } := rfl
